@@ -46,8 +46,8 @@ def judge_yw(c, tag, x, order, A, P, k, feats):
     if A.shape != (order,):
         c.fail('%s:length' % tag, {'len': list(A.shape), 'order': order}, feats)
         return False
-    if np.isrealobj(x):
-        c.require('%s:real-in-real-out' % tag, np.isrealobj(A), {'dtype': str(A.dtype)}, feats)
+    if np.isrealobj(x) and not np.isrealobj(A):
+        c.count('observation:%s-complex-dtype-for-real-input' % tag)       # dtype is not in the statement
     a1 = np.concatenate([[1.0], A.astype(complex)])
     lhs = T @ a1
     if P is not None:
